@@ -13,6 +13,7 @@ COMPONENTS = {
     "var": dict(driver_mode="var", targets=[("var", "var.cpp", "")]),
     "map": dict(driver_mode="map", targets=[("map", "map.cpp", "")]),
     "mul": dict(driver_mode="mul", targets=[("multi", "multi.cpp", "")]),
+    "capi": dict(driver_mode="capi", targets=[("capi", "capi.cpp", R.REPO + "/c-interface/cpgm.cpp")]),
 }
 
 TRUSTED_COMMON = [
@@ -57,6 +58,8 @@ PROPS = {
              nontrivial=lambda line: len(line.split("|")[1].split()) >= 3),
     "C14": P(comp="mul", gen=lambda t, s: gens.gen_multi(t, s + 8), judges=["C14"], kinds=("MUL",),
              nontrivial=lambda line: len(line.split("|")[1].split()) >= 3),
+    "C18": P(comp="capi", gen=lambda t, s: gens.gen_capi(t, s), judges=["C18"], kinds=("CIX", "CDY"),
+             nontrivial=lambda line: len(line.split("|")[1].split()) >= 2),
     "C03": P(comp="idx", gen=lambda t, s: gens.gen_seg(t, s), judges=["C03"], kinds=("SEG",),
              nontrivial=lambda line: len(line.split("|")[1].split()) >= 3),
     "C04": P(comp="idx", gen=lambda t, s: gens.gen_seg(t, s + 5), judges=["C04"], kinds=("SEG",),
